@@ -25,6 +25,7 @@ def run(chk):
     if not proved:
         broken.append("proof obligations of Props/C08.v do not check: " + plog[-800:])
     g = evalgen.Gen(chk.rng)
+    g.wild = 0.12
     n = 20000 if thorough else 1500
     cases = []
     for i in range(n):
@@ -82,14 +83,16 @@ def run(chk):
                           True, "evaluating an assignment-free expression changed the input document: " + expr)
     # ---- YAML documents with anchors, aliases, merge keys, non-string keys: the document must print as `.` prints it
     ydocs = ["a: &x {k: 1}\nb: *x\n", "a: &x {k: 1}\nb: {<<: *x, c: &y [1, 2]}\nd: *y\n", "- &a [1, 2]\n- *a\n- {m: *a}\n",
+             "base: &b {k: 1}\nlist: [*b, {k: 2}, *b]\nrecs:\n  - {id: 1, cfg: {ref: *b}}\n  - {id: 2, cfg: {ref: *b}}\n  - id: 3\n    cfg:\n      <<: *b\n      extra: true\n",
              "1: x\ntrue: y\n~: z\n", "a: !!str 1\nb: !custom v\nc: 'q'\n", "a: # c\n  - 1 # one\n  - 2\n"]
-    yops = EXTRA_OPS if thorough else EXTRA_OPS[::2] + ["to_json", "@json", "to_props", "to_yaml", "@yaml", "tojson", "to_xml", "to_csv", "to_tsv"]  # explode is an in-place operator, so it is outside the property
+    yops = EXTRA_OPS + ["unique_by(.cfg)", "group_by(.cfg)", "sort_by(.cfg)", "unique_by(.)", "group_by(.)", "sort_by(.)", "map(.cfg)", "to_json", "@json", "to_props", "to_yaml", "@yaml", "tojson", "to_xml", "to_csv", "to_tsv"]  # explode is an in-place operator, so it is outside the property
     yreq, ymeta = [], []
     for y in ydocs:
         yreq.append({"op": "eval", "expr": ".", "input": y, "in": "yaml", "out": "yaml"})
         ymeta.append((y, None))
         for op in yops:
-            for wrap in ("(%s) as $x | .", "(.. | %s) as $x | .", "([.. | select(%s)] | length) as $n | ."):
+            for wrap in ("(%s) as $x | .", "(.. | %s) as $x | .", "([.. | select(%s)] | length) as $n | .",
+                         "(.. | select(tag == \"!!seq\") | %s) as $x | .", "(.. | select(tag == \"!!map\") | %s) as $x | ."):
                 yreq.append({"op": "eval", "expr": wrap % op, "input": y, "in": "yaml", "out": "yaml"})
                 ymeta.append((y, wrap % op))
     yresp = vlib.yqh_parallel(yreq)
